@@ -445,6 +445,35 @@ Example C03_internal_location_not_listed_nonvacuous :
     [bs "/int"%string; bs "/int/h.txt"%string; bs "/pub"%string; bs "/pub/a.txt"%string; bs "/top.txt"%string].
 Proof. vm_compute. auto. Qed.
 
+(* SEQUENCES on one running site: browse requests interleaved with ANY changes of the files below
+   the root (the internal directory replaced by another one — a new inode — included; every
+   request comes with the tree as it is when it arrives).  Every answer of every history is the
+   answer to its request alone, names no internal location, and no archive member lies below one.
+   (Seeded change C03-m9 remembered the FileInfo of the hide-list entries: after the internal
+   directory had been swapped, GET /?archive=zip packed it.) *)
+Theorem C03_internal_location_hidden_in_every_history : forall s ps h qs q ans p,
+  hs_internal s = Some ps -> browse_hide s = Some h -> In p ps ->
+  In (q, ans) (browse_history h qs) ->
+  ans = browse_answer h q /\ ~ In (resolved p) ans /\
+  (bq_arc q = true -> forall e c, In (e, c) (archive h (bq_dir q) (bq_kids q)) -> In e ans /\ ~ In (resolved p) c).
+Proof. exact history_internal_not_named. Qed.
+Print Assumptions C03_internal_location_hidden_in_every_history.
+
+Example C03_internal_location_hidden_in_every_history_nonvacuous :
+  let s := {| hs_initial := []; hs_internal := Some [bs "/int"%string]; hs_browse := true |} in
+  (* the internal directory swapped for another one between the requests *)
+  let tree2 := [ Node (bs "int"%string) true [Node (bs "release2.txt"%string) false []];
+                 Node (bs "pub"%string) true [Node (bs "a.txt"%string) false []] ] in
+  browse_hide s = Some [bs "/int"%string] /\
+  map snd (browse_history [bs "/int"%string]
+             [ {| bq_arc := true; bq_dir := [SLASH]; bq_kids := example_tree |};
+               {| bq_arc := true; bq_dir := [SLASH]; bq_kids := tree2 |};
+               {| bq_arc := false; bq_dir := [SLASH]; bq_kids := tree2 |} ])
+  = [ [bs "/pub"%string; bs "/pub/a.txt"%string; bs "/top.txt"%string];
+      [bs "/pub"%string; bs "/pub/a.txt"%string];
+      [bs "/pub"%string] ].
+Proof. vm_compute. auto. Qed.
+
 (* the static file server never sends the bytes of a hidden file — not as the file asked for,
    not as an index page, not as a precompressed sibling — hence never those of an internal location *)
 Theorem C03_fileserver_never_serves_hidden : forall hide idx exts files dirs p f,
